@@ -128,6 +128,19 @@ func c07Spec(rng *rand.Rand, i int) (*SessSpec, string) {
 		sp.Failover = map[int][][2]uint64{vb: {{0xbbb, R + 1}, {0xaaa, 0}}}
 		hi = seq
 	}
+	if kind == "late-replica" && i%16 == 3 && sp.NumVB >= 2 {
+		// the copies report the gated vBucket's backlog persisted while Open() is still waiting for the answer to the stream
+		// request of another vBucket; nothing changes afterwards: what they reported then still counts
+		other := (vb + 1) % sp.NumVB
+		sp.ReqHold = map[int]int{other: 1}
+		sp.StartSteps = []Step{{Op: "waithold", N: 1}, {Op: "waitopen", VB: vb}, {Op: "waitrounds", VB: vb, N: 2}}
+		for _, ix := range pr {
+			sp.StartSteps = append(sp.StartSteps, Step{Op: "observe", VB: vb, N: ix, St: 1000})
+		}
+		sp.StartSteps = append(sp.StartSteps, Step{Op: "waitrounds", VB: vb, N: 3}, Step{Op: "releasereq"})
+		sp.Steps = append(sp.Steps, wr(vb, 3), Step{Op: "barrier"})
+		return sp, "reported-during-open"
+	}
 	switch kind {
 	case "lagging", "unassigned":
 		// replicas advance one at a time; the slowest one gates
@@ -384,7 +397,7 @@ func OracleGate(tr *Trace, kind string) ([]Finding, int, bool) {
 					until := closeT
 					if dt, ok := deliveredT[[2]uint64{uint64(vb), it.Seq}]; ok {
 						until = dt
-					} else if sg.NextReqT != 0 || sg.EndT != 0 {
+					} else if (sg.NextReqT != 0 && sg.NextReqT < closeT) || (sg.EndT != 0 && sg.EndT < closeT) {
 						continue // the stream ended before the item was delivered; a later stream re-sends it
 					}
 					rounds := 0
